@@ -278,7 +278,7 @@ void fp8_exp_dig(fp8_t c, const fp8_t a, dig_t b) {
 			l = RLC_DIG + 1;
 			bn_rec_naf(naf, &l, _b, 2);
 
-			for (int i = bn_bits(_b) - 2; i >= 0; i--) {
+			for (int i = (int)l - 2; i >= 0; i--) {
 				fp8_sqr_cyc(t, t);
 
 				u = naf[i];
@@ -414,7 +414,7 @@ void fp12_exp_dig(fp12_t c, const fp12_t a, dig_t b) {
 			l = RLC_DIG + 1;
 			bn_rec_naf(naf, &l, _b, 2);
 
-			for (int i = bn_bits(_b) - 2; i >= 0; i--) {
+			for (int i = (int)l - 2; i >= 0; i--) {
 				fp12_sqr_cyc(t, t);
 
 				u = naf[i];
@@ -514,7 +514,7 @@ void fp16_exp_dig(fp16_t c, const fp16_t a, dig_t b) {
 			l = RLC_DIG + 1;
 			bn_rec_naf(naf, &l, _b, 2);
 
-			for (int i = bn_bits(_b) - 2; i >= 0; i--) {
+			for (int i = (int)l - 2; i >= 0; i--) {
 				fp16_sqr_cyc(t, t);
 
 				u = naf[i];
@@ -610,7 +610,7 @@ void fp18_exp_dig(fp18_t c, const fp18_t a, dig_t b) {
 			l = RLC_DIG + 1;
 			bn_rec_naf(naf, &l, _b, 2);
 
-			for (int i = bn_bits(_b) - 2; i >= 0; i--) {
+			for (int i = (int)l - 2; i >= 0; i--) {
 				fp18_sqr_cyc(t, t);
 
 				u = naf[i];
@@ -706,7 +706,7 @@ void fp24_exp_dig(fp24_t c, const fp24_t a, dig_t b) {
 			l = RLC_DIG + 1;
 			bn_rec_naf(naf, &l, _b, 2);
 
-			for (int i = bn_bits(_b) - 2; i >= 0; i--) {
+			for (int i = (int)l - 2; i >= 0; i--) {
 				fp24_sqr_cyc(t, t);
 
 				u = naf[i];
@@ -806,7 +806,7 @@ void fp48_exp_dig(fp48_t c, const fp48_t a, dig_t b) {
 			l = RLC_DIG + 1;
 			bn_rec_naf(naf, &l, _b, 2);
 
-			for (int i = bn_bits(_b) - 2; i >= 0; i--) {
+			for (int i = (int)l - 2; i >= 0; i--) {
 				fp48_sqr_cyc(t, t);
 
 				u = naf[i];
@@ -902,7 +902,7 @@ void fp54_exp_dig(fp54_t c, const fp54_t a, dig_t b) {
 			l = RLC_DIG + 1;
 			bn_rec_naf(naf, &l, _b, 2);
 
-			for (int i = bn_bits(_b) - 2; i >= 0; i--) {
+			for (int i = (int)l - 2; i >= 0; i--) {
 				fp54_sqr_cyc(t, t);
 
 				u = naf[i];
